@@ -124,6 +124,10 @@ pub fn check(c: &Call, extra: usize, pseed: u64, rep: &mut Report) {
             }
             return;
         }
+        (Outcome::Ok, Ok(Err(()))) if exp.may_refuse.is_some() => {
+            rep.class(&format!("unjudged:refused:{}", exp.may_refuse.unwrap()));
+            return;
+        }
         (Outcome::Ok, Ok(Err(()))) => {
             rep.violation(&format!("{}:{}:valid-input-refused", form, lc), || format!("arguments fit the frame ({} bytes) but the encoder returned Err", exp.total_len()), case);
             return;
